@@ -137,6 +137,11 @@ def search(run, info):
             scenarios.append((si, fsys, cmd, ["dsub"], "dir-with-subdir"))
             # a directory whose entries are symbolic links to the files: the same set as the directory of the files
             scenarios.append((si, fsys, cmd, ["dlink"], "dir-of-links"))
+            # the same file reached twice -- through its directory and by its own path, the directory in two spellings, a file
+            # in two spellings: still the set of the directory's files, once each
+            for a in (["d", "d/" + files[0]], ["d/" + files[-1], "d"], ["d", "./d"], ["./d/", "d"],
+                      ["d/" + f for f in files] + ["./d/" + files[0]], ["d/../d"]):
+                scenarios.append((si, fsys, cmd, a, "overlap"))
     for cmd in ("check", "tokenize", "echo"):
         scenarios.append((-1, {"files": {}, "dirs": {"d": []}}, cmd, [], "no-paths"))
         scenarios.append((-1, {"files": {}, "dirs": {"d": []}}, cmd, ["d"], "empty-dir"))
@@ -175,6 +180,8 @@ def search(run, info):
     # model predictions
     lines = []
     for i, (si, fsys, cmd, args, kind) in enumerate(scenarios):
+        if kind == "overlap":
+            continue        # compared with the other presentations of the set below; the model's paths are names, not spellings
         pid = {}
         specs = []
 
@@ -216,7 +223,7 @@ def search(run, info):
         if fail:
             run.violation("impl-violates-property", "%s %s: %s" % (cmd, " ".join(args), fail), {"scenario": desc, "observed": o})
             continue
-        if kind in ("files", "dir", "dir-of-links"):
+        if kind in ("files", "dir", "dir-of-links", "overlap"):
             by_set.setdefault((si, cmd), []).append((kind, args, o, fsys))
         mo = model.get(str(i))
         if mo and len(mo) >= 2 and mo[0] not in ("bad-args", "unknown-op"):
